@@ -1,6 +1,7 @@
 import McpModel.Base.Proto
 import McpModel.Gate.Monitor
 import McpModel.Gate.Custom
+import McpModel.Gate.Mid
 /-!
 Driver for E3 `gate`: replays the harness's envelope descriptors on the admission model and evaluates
 the C06 / C02 monitors on the IMPLEMENTATION's observations.
@@ -360,6 +361,18 @@ def engine : Engine DState where
     -- `hold`: from here on the user's notification handlers of the case park until the next envelope has
     -- been written (a schedule, not an input of the session: the model's step is the same)
     | ["hold"] => (d, { model := "ok" })
+    -- `holdinit`: the middleware parks an initialize that reached the handler chain until the next envelope has
+    -- been written; `mid m=<hex method> <legacy|new>`: what is visible of that next envelope at that point
+    | ["holdinit"] => (d, { model := "ok" })
+    | ["mid", mtok, kind] =>
+      match kv "m" mtok, field "mw" impl, field "uh" impl, field "w" impl with
+      | some mname, some mw, some uh, some w =>
+        let o : MidObs := { mw := mw != "-", uh := uh != "-", w := parseW w }
+        let viol := if (d.pid == "" || d.pid == "C06") && midViolates d.mon.prevSt.init.isSome d.mon.opened mname (kind == "new") o
+          then some s!"C06: {mname} reached a handler (or was answered with a result) while the session's initialize was still being handled — no initialize had been accepted yet: mw={mw} uh={uh} w={w}"
+          else none
+        (d, { model := "mw=- uh=- w=none", violated := viol })
+      | _, _, _, _ => (d, { model := "mw=- uh=- w=none", violated := some "C06: unreadable observation (mid)" })
     | ["tr", spec] =>
       match parseTr spec with
       | none => (d, { model := "bad-op" })
